@@ -718,7 +718,7 @@ func (ex *Exec) finish() {
 			name = fmt.Sprintf("%d", i+1)
 		}
 		o := vc.oblige("post", fmt.Sprintf("post:%s#%s", ex.con.Name, name), TTrue, And(parts...), ex.pos(ex.fn.Pos()))
-		o.Note = en.Src
+		o.SetNote(en.Src)
 	}
 	// frame: every heap written must be unchanged on pre-existing cells, except where `modifies` allows it
 	if !ex.con.NoFrame {
@@ -732,7 +732,7 @@ func (ex *Exec) frameObligations() {
 		return
 	}
 	if ex.wroteAll != "" {
-		vc.oblige("frame", fmt.Sprintf("frame:%s:*", ex.con.Name), TTrue, TFalse, ex.pos(ex.fn.Pos())).Note = "opaque call (" + ex.wroteAll + ") may write anything; contract lacks `modifies *`"
+		vc.oblige("frame", fmt.Sprintf("frame:%s:*", ex.con.Name), TTrue, TFalse, ex.pos(ex.fn.Pos())).SetNote("opaque call (" + ex.wroteAll + ") may write anything; contract lacks `modifies *`")
 		return
 	}
 	// allowed[heap] = list of reference expressions (nil entry: whole heap)
@@ -790,6 +790,6 @@ func (ex *Exec) frameObligations() {
 			}
 			parts = append(parts, Imp(cond, Eq(Select(h1, q), Select(h0, q))))
 		}
-		vc.oblige("frame", fmt.Sprintf("frame:%s:%s", ex.con.Name, h), TTrue, And(parts...), ex.pos(ex.fn.Pos())).Note = "pre-existing cells of " + h + " not listed in `modifies` are unchanged"
+		vc.oblige("frame", fmt.Sprintf("frame:%s:%s", ex.con.Name, h), TTrue, And(parts...), ex.pos(ex.fn.Pos())).SetNote("pre-existing cells of " + h + " not listed in `modifies` are unchanged")
 	}
 }
